@@ -12,9 +12,20 @@
      Q ic ir nk bk  <pats> <keys> <parents> <others>   -> ids   run_query
      N ic ir <pats> <keys> <objs>                      -> ids   run_netlists
      H ic ir <pats> <names> <refs-in-order> <in_yield> -> ids   run_hier
+     op <ir op>                                        -> ok | <exception>   one step of the IR model (same op
+                                                          syntax as driver_ir.ml / driver_hier.ml); "reset" starts over
+     F fn reg ic ir rec sel cbm cbr key <pats> <roots> -> ids | FUEL | ERR key
+                                                          the whole query fn (Query/Enum.v: candidate enumeration +
+                                                          filter stages) on the current state. fn = instances |
+                                                          definitions | libraries | ports | netlists | cables | pins |
+                                                          wires; sel = INSIDE | OUTSIDE | BOTH | ALL; the callback
+                                                          accepts e iff cbm = 0 or e mod cbm <> cbr; roots = n tok*,
+                                                          tok = E<id> | O<inst>.<pin> | D | H<id>/<id>/.. (root first);
+                                                          pins are printed as I<id> | O<inst>.<pin> | D
    <pats> = n p1..pn ; <keys> = n (id val)* ; <parents> = n (mode m c1..cm)* with mode s|l|n ;
    id lists = n i1..in ; bk = f | k | d.
-   Trusted glue: parsing and printing only. *)
+   Trusted glue: parsing, printing, and [freeze] (memoises the total maps of the state; it does not
+   change any value). *)
 open Query_model
 
 let rec nat_of_int n = if n <= 0 then O else S (nat_of_int (n - 1))
@@ -44,12 +55,191 @@ let take_pairs toks conv = match toks with
     go n [] rest
   | [] -> failwith "missing count"
 
+let z_of_int n = if n = 0 then Z0 else if n > 0 then Zpos (pos_of_int n) else Zneg (pos_of_int (-n))
+let int_of_z = function Z0 -> 0 | Zpos p -> int_of_pos p | Zneg p -> - (int_of_pos p)
+
+let optid_of_tok t = if t = "~" then None else Some (nat_of_int (int_of_string t))
+let id_of_tok t = nat_of_int (int_of_string t)
+
+let val_of_tok t =
+  if t = "n" then VNone
+  else match t.[0] with
+    | 's' -> VStr (str_of_tok (String.sub t 2 (String.length t - 2)))
+    | 'i' -> VInt (z_of_int (int_of_string (String.sub t 2 (String.length t - 2))))
+    | 'b' -> VBool (t = "b:1")
+    | _ -> failwith ("bad val " ^ t)
+
+let tok_of_val = function
+  | VStr s -> "s:" ^ tok_of_str s
+  | VInt z -> "i:" ^ string_of_int (int_of_z z)
+  | VBool b -> if b then "b:1" else "b:0"
+  | VNone -> "n"
+
+let pin_of_tok t =
+  if t = "D" then PDet
+  else if t.[0] = 'I' then PIn (id_of_tok (String.sub t 1 (String.length t - 1)))
+  else match String.split_on_char '.' (String.sub t 1 (String.length t - 1)) with
+    | [a; b] -> POut (id_of_tok a, id_of_tok b)
+    | _ -> failwith ("bad pin " ^ t)
+
+let tok_of_pin = function
+  | PIn i -> "I" ^ string_of_int (int_of_nat i)
+  | POut (n, i) -> "O" ^ string_of_int (int_of_nat n) ^ "." ^ string_of_int (int_of_nat i)
+  | PDet -> "D"
+
+let kind_of_tok = function
+  | "netlist" -> KNetlist | "library" -> KLibrary | "definition" -> KDefinition | "port" -> KPort
+  | "cable" -> KCable | "wire" -> KWire | "pin" -> KPin | "instance" -> KInstance
+  | t -> failwith ("bad kind " ^ t)
+let tok_of_kind = function
+  | KNetlist -> "netlist" | KLibrary -> "library" | KDefinition -> "definition" | KPort -> "port"
+  | KCable -> "cable" | KWire -> "wire" | KPin -> "pin" | KInstance -> "instance"
+let rel_of_tok = function
+  | "libs" -> RLibs | "defs" -> RDefs | "ports" -> RPorts | "cables" -> RCables
+  | "children" -> RChildren | "pins" -> RPins | "wires" -> RWires
+  | t -> failwith ("bad rel " ^ t)
+let tok_of_rel = function
+  | RLibs -> "libs" | RDefs -> "defs" | RPorts -> "ports" | RCables -> "cables"
+  | RChildren -> "children" | RPins -> "pins" | RWires -> "wires"
+
+(* token stream helpers *)
+let take_n toks = match toks with
+  | c :: rest ->
+    let n = int_of_string c in
+    let rec go k acc l = if k = 0 then (List.rev acc, l) else match l with x :: l' -> go (k - 1) (x :: acc) l' | [] -> failwith "short list" in
+    go n [] rest
+  | [] -> failwith "missing count"
+
+let take_props toks = match toks with
+  | c :: rest ->
+    let n = int_of_string c in
+    let rec go k acc l = if k = 0 then (List.rev acc, l) else match l with kk :: vv :: l' -> go (k - 1) ((str_of_tok kk, val_of_tok vv) :: acc) l' | _ -> failwith "short props" in
+    go n [] rest
+  | [] -> failwith "missing count"
+
+let optnat_of_tok t = if t = "~" then None else Some (nat_of_int (int_of_string t))
+
+let parse_op line : op =
+  match String.split_on_char ' ' (String.trim line) with
+  | "new" :: k :: nm :: rest -> let (props, _) = take_props rest in ONew (kind_of_tok k, optstr_of_tok nm, props)
+  | "create" :: r :: p :: nm :: rest ->
+    let (props, rest) = take_props rest in
+    (match rest with
+     | [items; rf] -> OCreate (rel_of_tok r, id_of_tok p, optstr_of_tok nm, props, nat_of_int (int_of_string items), optid_of_tok rf)
+     | _ -> failwith "bad create")
+  | [ "items"; r; p; n ] -> OCreateItems (rel_of_tok r, id_of_tok p, nat_of_int (int_of_string n))
+  | [ "add"; r; p; c; pos ] -> OAdd (rel_of_tok r, id_of_tok p, id_of_tok c, optnat_of_tok pos)
+  | [ "remove"; r; p; c ] -> ORemove (rel_of_tok r, id_of_tok p, id_of_tok c)
+  | "removefrom" :: r :: p :: rest -> let (l, _) = take_n rest in ORemoveFrom (rel_of_tok r, id_of_tok p, List.map id_of_tok l)
+  | "reorder" :: r :: p :: rest -> let (l, _) = take_n rest in OReorder (rel_of_tok r, id_of_tok p, List.map id_of_tok l)
+  | "reorderwire" :: w :: rest -> let (l, _) = take_n rest in OReorderWire (id_of_tok w, List.map pin_of_tok l)
+  | [ "connect"; w; p; pos ] -> OConnect (id_of_tok w, pin_of_tok p, optnat_of_tok pos)
+  | [ "disconnect"; w; p ] -> ODisconnect (id_of_tok w, pin_of_tok p)
+  | "disconnectfrom" :: w :: rest -> let (l, _) = take_n rest in ODisconnectFrom (id_of_tok w, List.map pin_of_tok l)
+  | [ "setref"; x; v ] -> OSetReference (id_of_tok x, optid_of_tok v)
+  | [ "settop"; n; a ] ->
+    let arg = if a = "N" then TopNone
+      else if a.[0] = 'I' then TopInst (id_of_tok (String.sub a 1 (String.length a - 1)))
+      else TopDef (id_of_tok (String.sub a 1 (String.length a - 1))) in
+    OSetTop (id_of_tok n, arg)
+  | [ "setname"; e; nm ] -> OSetName (id_of_tok e, optstr_of_tok nm)
+  | [ "delname"; e ] -> ODelName (id_of_tok e)
+  | [ "dset"; e; k; v ] -> ODSet (id_of_tok e, str_of_tok k, val_of_tok v)
+  | [ "ddel"; e; k ] -> ODDel (id_of_tok e, str_of_tok k)
+  | [ "dpop"; e; k ] -> ODPop (id_of_tok e, str_of_tok k)
+  | [ "downto"; b; v ] -> OSetDownto (id_of_tok b, v = "1")
+  | [ "scalar"; b; v ] -> OSetScalar (id_of_tok b, v = "1")
+  | [ "lower"; b; v ] -> OSetLower (id_of_tok b, z_of_int (int_of_string v))
+  | [ "direction"; p; d ] -> OSetDirection (id_of_tok p, (match d with "0" -> DUndef | "1" -> DInout | "2" -> DIn | _ -> DOut))
+  | [ "policy"; p ] -> OSetPolicy (if p = "1" then PolEdif else PolDefault)
+  | _ -> failwith ("bad op: " ^ line)
+
+
+
+(* ---- memoised copy of the state (pure speed-up of the lookups) ---- *)
+let memo1 (f : nat -> 'a) : nat -> 'a =
+  let t = Hashtbl.create 256 in
+  fun x -> let k = int_of_nat x in
+    match Hashtbl.find_opt t k with Some v -> v | None -> let v = f x in Hashtbl.add t k v; v
+let all_rels = [ RLibs; RDefs; RPorts; RCables; RChildren; RPins; RWires ]
+let memo_rel (f : rel -> nat -> 'a) : rel -> nat -> 'a =
+  let ms = List.map (fun r -> (r, memo1 (f r))) all_rels in
+  fun r -> List.assoc r ms
+let freeze (s : state) : state =
+  { s with kind_of = memo1 s.kind_of; kids = memo_rel s.kids; par = memo_rel s.par;
+           wpins = memo1 s.wpins; ipwire = memo1 s.ipwire; iref = memo1 s.iref; drefs = memo1 s.drefs;
+           ipins = memo1 s.ipins; top = memo1 s.top; data = memo1 s.data;
+           bscalar = memo1 s.bscalar; blower = memo1 s.blower }
+
+
 let ids_out l = if l = [] then "-" else String.concat "," (List.map (fun i -> string_of_int (int_of_nat i)) l)
 
 let keyfun pairs = fun (i : nat) -> (try List.assoc (int_of_nat i) pairs with Not_found -> None)
 
+(* ---- the current netlist (rebuilt from op lines) and the whole queries of Query/Enum.v ---- *)
+let st = ref init
+let frozen : state option ref = ref None
+let cur () = match !frozen with Some s -> s | None -> let s = freeze !st in frozen := Some s; s
+let big_fuel = nat_of_int 400000
+
+let tok_of_exn = function
+  | XAssert -> "assert" | XValue -> "value" | XKey -> "key" | XRuntime -> "runtime" | XType -> "type" | XStuck -> "key"
+
+let item_of_tok t : item =
+  if t = "D" then IDet
+  else match t.[0] with
+    | 'E' -> IE (id_of_tok (String.sub t 1 (String.length t - 1)))
+    | 'O' -> (match String.split_on_char '.' (String.sub t 1 (String.length t - 1)) with
+        | [a; b] -> IO (id_of_tok a, id_of_tok b)
+        | _ -> failwith ("bad root " ^ t))
+    | 'H' -> IH (List.rev_map id_of_tok (String.split_on_char '/' (String.sub t 1 (String.length t - 1))))   (* model is leaf first *)
+    | _ -> failwith ("bad root " ^ t)
+
+let wres_out pr = function
+  | WOk l -> if l = [] then "-" else String.concat "," (List.map pr l)
+  | WFuel -> "FUEL"
+  | WErr -> "ERR key"
+
+let pin_weight_cb = function PIn i -> int_of_nat i | POut (n, i) -> int_of_nat n + int_of_nat i | PDet -> 0
+
+let sel_of_tok = function
+  | "INSIDE" -> SInside | "OUTSIDE" -> SOutside | "BOTH" -> SBoth | "ALL" -> SAll
+  | t -> failwith ("bad selection " ^ t)
+
+let full_query toks =
+  match toks with
+  | fn :: reg :: ic :: ir :: rc :: sl :: cbm :: cbr :: key :: rest ->
+    let pats, rest = take_list rest str_of_tok in
+    let roots, _ = take_list rest item_of_tok in
+    let m = int_of_string cbm and r = int_of_string cbr in
+    let cb = fun (e : nat) -> m = 0 || (int_of_nat e) mod m <> r in
+    let pcb = fun (p : pin) -> m = 0 || (pin_weight_cb p) mod m <> r in
+    let o = { q_reg = bool_of_tok reg; q_case = bool_of_tok ic; q_re = bool_of_tok ir; q_key = str_of_tok key; q_cb = cb } in
+    let s = cur () and recb = bool_of_tok rc in
+    let inside = (sl = "INSIDE") in
+    let sid x = string_of_int (int_of_nat x) in
+    (match fn with
+     | "instances" -> wres_out sid (query_instances s o big_fuel roots recb inside pats)
+     | "definitions" -> wres_out sid (query_definitions s o big_fuel roots recb inside pats)
+     | "libraries" -> wres_out sid (query_libraries s o big_fuel roots recb inside pats)
+     | "ports" -> wres_out sid (query_ports s o big_fuel roots pats)
+     | "netlists" -> wres_out sid (query_netlists s o big_fuel roots pats)
+     | "pins" -> wres_out tok_of_pin (query_pins s pcb big_fuel roots inside)
+     | "cables" -> wres_out sid (query_cables s o big_fuel roots recb (sel_of_tok sl) pats)
+     | "wires" -> wres_out sid (query_wires s cb big_fuel roots recb (sel_of_tok sl))
+     | _ -> failwith ("bad query function " ^ fn))
+  | _ -> failwith "bad F request"
+
 let handle line =
   match String.split_on_char ' ' line with
+  | ["reset"] -> st := init; frozen := None; "reset"
+  | "op" :: _ ->
+    let o = parse_op (String.sub line 3 (String.length line - 3)) in
+    let s0 = { !st with log = [] } in
+    let (s1, out) = step s0 o in
+    st := s1; frozen := None;
+    (match out with None -> "ok" | Some x -> tok_of_exn x)
+  | "F" :: rest -> full_query (List.filter (fun t -> t <> "") rest)
   | ["M"; ic; ir; p; v] ->
     (match value_matches (optstr_of_tok v) (str_of_tok p) (bool_of_tok ic) (bool_of_tok ir) with
      | Some b -> tf b | None -> "U")
